@@ -1,7 +1,8 @@
 """C30: the axis dataclasses of abtem/core/axes.py as a generated table (theorems quantify over it); the
 encode/decode closures and the packing code are hand-modelled (fingerprints)."""
 SITES = [
-    dict(gen="AxesClasses", name="axisClasses", file="abtem/core/axes.py", emitter="py2lean_dataclass:emit", modes=["rat"]),
+    dict(gen="AxesClasses", name="axisClasses", file="abtem/core/axes.py", more_files=["abtem/inelastic/plasmons.py"],
+         emitter="py2lean_dataclass:emit", modes=["rat"]),
 ]
 EXTRA_IMPORTS = {"AxesClasses": ["import AbtemVerif.Model.Json"]}
 FINGERPRINTS = {
